@@ -63,7 +63,8 @@ type supClient struct {
 	stores     map[string][]int64
 	failEnsure map[string]bool // one-shot: the next EnsurePipe for that pipe name fails
 	ensures    map[string]int
-	paused     bool // no query is answered: the driver is taking a view
+	paused     bool                     // no query is answered: the driver is taking a view
+	holdEnsure map[string]chan struct{} // EnsurePipe of that pipe name waits for the channel to be closed (then fails if armed)
 }
 
 var supFromRe = regexp.MustCompile(`^SELECT FROM (\S+)$`)
@@ -136,8 +137,18 @@ func (c *supClient) Execute(ctx context.Context, req api.ExecRequest) (api.ExecR
 }
 func (c *supClient) EnsurePipe(ctx context.Context, p api.Pipe, res *api.PipeCreateResult) error {
 	c.mu.Lock()
-	defer c.mu.Unlock()
+	gate := c.holdEnsure[p.Name]
 	c.ensures[p.Name]++
+	c.mu.Unlock()
+	if gate != nil {
+		select {
+		case <-gate:
+		case <-ctx.Done():
+			return ctx.Err()
+		}
+	}
+	c.mu.Lock()
+	defer c.mu.Unlock()
 	if c.failEnsure[p.Name] {
 		delete(c.failEnsure, p.Name)
 		return errors.New("fake server: not reachable")
@@ -570,6 +581,78 @@ func runSup(rp SupReplay) (*Case, error) {
 				d.push(GApp("SStartFail", GNat(op.Name)))
 			}
 			d.settle(true, true)
+		case "startfailheld":
+			// the worker under Name (an EnsurePipe worker, not configured so far) is started, its EnsurePipe stays pending; a
+			// new configuration replaces its descriptor (the worker is told to stop: state stopping); then the pending
+			// EnsurePipe fails: the worker must end up stopped, so that the next sync can start the worker of the new descriptor
+			pn := supName(op.Name)
+			gate := make(chan struct{})
+			d.cli.mu.Lock()
+			if d.cli.holdEnsure == nil {
+				d.cli.holdEnsure = map[string]chan struct{}{}
+			}
+			d.cli.holdEnsure[pn] = gate
+			d.cli.failEnsure[pn] = true
+			before := d.cli.ensures[pn]
+			d.cli.mu.Unlock()
+			if len(op.Cfg) < 2 {
+				continue
+			}
+			// Cfg = others..., (Name, A), (Name, B): first the configuration with A, then the one with B
+			second := op.Cfg
+			alt := append([]SupCfg{}, second[:len(second)-1]...)
+			for _, c := range op.Cfg {
+				if d.cli.size(supDest(c.N)) == 0 {
+					d.cli.appendN(supDest(c.N), 1)
+				}
+			}
+			d.cur = alt
+			d.cli.pause(true)
+			d.sup.Sync(d.ctx)
+			d.baseline()
+			d.push(GApp("SSync", GSome(gSupCfg(alt)), gNoSink(d.cur)))
+			pending := false
+			for t := 0; t < 500; t++ {
+				d.cli.mu.Lock()
+				pending = d.cli.ensures[pn] > before
+				d.cli.mu.Unlock()
+				if pending {
+					break
+				}
+				time.Sleep(2 * time.Millisecond)
+			}
+			repl := append(append([]SupCfg{}, second[:len(alt)-1]...), second[len(second)-1])
+			d.cur = repl
+			d.sup.Sync(d.ctx)
+			d.baseline()
+			d.push(GApp("SSync", GSome(gSupCfg(repl)), gNoSink(d.cur)))
+			close(gate)
+			d.cli.mu.Lock()
+			delete(d.cli.holdEnsure, pn)
+			d.cli.mu.Unlock()
+			stopped := false
+			if pending {
+				for t := 0; t < 1000; t++ {
+					for _, x := range d.sup.Workers() {
+						if nameNum(x.Name) == op.Name && x.State == 2 {
+							stopped = true
+						}
+					}
+					if stopped {
+						break
+					}
+					time.Sleep(2 * time.Millisecond)
+				}
+				if stopped {
+					d.push(GApp("SStartFail", GNat(op.Name)))
+				} else {
+					d.fail("sup-failed-start-of-a-replaced-worker-not-stopped", fmt.Sprintf("w%d: its descriptor was replaced while its EnsurePipe was pending, then EnsurePipe failed: the worker is not marked stopped within 2 s (the worker of the new descriptor can never start)", op.Name))
+				}
+			}
+			d.cli.mu.Lock()
+			delete(d.cli.failEnsure, pn)
+			d.cli.mu.Unlock()
+			d.settle(true, true)
 		case "exit":
 			// a stopping worker is brought to its loop head by one more event
 			var w *forwarder.VC18WorkerInfo
@@ -860,6 +943,9 @@ func supCorpus() []SupReplay {
 			{K: "sync", New: true, Cfg: []SupCfg{{1, 0}, {2, 1}}}, {K: "deliver", Name: 2, Cnt: 2},
 			{K: "sync", New: true, Cfg: []SupCfg{{1, 50}, {2, 1}}}, {K: "exit", Name: 1}, {K: "sync"}, {K: "persist"},
 			{K: "restart", Cfg: []SupCfg{{1, 0}, {2, 1}}}, {K: "deliver", Name: 1, Cnt: 1}}},
+		// a worker's descriptor is replaced while its start is pending, then the start fails
+		{Sup: true, Cfg0: []SupCfg{{1, 0}}, Ops: []SupOp{
+			{K: "startfailheld", Name: 100, Cfg: []SupCfg{{1, 0}, {100, 0}, {100, 1}}}, {K: "sync"}, {K: "deliver", Name: 100, Cnt: 2}, {K: "persist"}}},
 		// the start of a worker fails once (the server is not reachable when it asks for its pipe)
 		{Sup: true, Cfg0: []SupCfg{{1, 0}}, Ops: []SupOp{
 			{K: "startfail", Name: 100, New: true, Cfg: []SupCfg{{1, 0}, {100, 0}}}, {K: "sync"}, {K: "deliver", Name: 100, Cnt: 2}, {K: "persist"}}},
